@@ -127,12 +127,32 @@ UpdateLast(cs, g, mid, m) ==
 -----------------------------------------------------------------------------
 (* Snapshot manager (epoch_snapshots.rs)                                    *)
 
+\* ensure_hydrated (persistent backends, first touch of the manager for g after a (re)start): the queue is
+\* rebuilt from the stored snapshot names in creation order; the applied commit's timestamp is not stored, so
+\* hydrated entries carry ts = 0 ("HydratedNoTimestamp": never comparable), unless the deviation is off
+RECURSIVE SeqOfStored(_)
+SeqOfStored(S) == IF S = {} THEN <<>>
+                  ELSE LET m == CHOOSE x \in S : \A y \in S : x.seq <= y.seq
+                       IN  <<m>> \o SeqOfStored(S \ {m})
+Hydrate(cs0, g) ==
+    IF ~cs0.sql \/ g \in cs0.hyd THEN cs0
+    ELSE LET all  == SeqOfStored(cs0.g[g].stored)
+             q1   == [i \in DOMAIN all |-> [epoch |-> all[i].epoch, commit |-> all[i].commit,
+                                            ts |-> IF "HydratedNoTimestamp" \in Dev THEN 0 ELSE ev[all[i].commit].ts]]
+             drop == IF Len(q1) > Retention THEN Len(q1) - Retention ELSE 0
+             gone == {<<q1[i].epoch, q1[i].commit>> : i \in 1..drop}
+         IN  [cs0 EXCEPT !.q[g] = SubSeq(q1, drop + 1, Len(q1)),
+                         !.g[g].stored = {x \in @ : <<x.epoch, x.commit>> \notin gone},
+                         !.hyd = @ \cup {g}]
+
 \* create_snapshot: store, push, prune queue to Retention (releasing the pruned ones)
-TakeSnapshot(cs, g, e) ==
-    LET gs    == cs.g[g]
+TakeSnapshot(cs00, g, e) ==
+    LET cs    == Hydrate(cs00, g)
+        gs    == cs.g[g]
         entry == [epoch |-> Cur(cs, g), commit |-> e, ts |-> ev[e].ts]
+        nseq  == 1 + (IF gs.stored = {} THEN 0 ELSE CHOOSE m \in {x.seq : x \in gs.stored} : \A y \in gs.stored : y.seq <= m)
         st1   == {s \in gs.stored : ~(s.epoch = entry.epoch /\ s.commit = e)}
-                   \cup {[epoch |-> entry.epoch, commit |-> e, snap |-> SnapOf(gs)]}
+                   \cup {[epoch |-> entry.epoch, commit |-> e, seq |-> nseq, snap |-> SnapOf(gs)]}
         q1    == Append(cs.q[g], entry)
         drop  == IF Len(q1) > Retention THEN Len(q1) - Retention ELSE 0
         gone  == {<<q1[i].epoch, q1[i].commit>> : i \in 1..drop}
@@ -288,7 +308,8 @@ ProcOwnEcho(cs, c, e, g) ==
 RECURSIVE Process(_, _, _, _, _)
 
 \* W: epoch mismatch
-ProcWrongEpoch(cs, c, e, g, recEpoch, nm, n) ==
+ProcWrongEpoch(cs0, c, e, g, recEpoch, nm, n) ==
+    LET cs == IF ev[e].kind = "commit" THEN Hydrate(cs0, g) ELSE cs0 IN      \* is_better_candidate hydrates first
     IF (ev[e].kind = "commit" \/ "StaleHandshakeRollback" \in Dev)       \* only commits compete for an epoch
        /\ IsBetterCandidate(cs, g, n, e) /\ HasStored(cs, g, SnapIdx(cs, g, n))
     THEN LET cs1 == RollbackTo(cs, g, n)
@@ -359,7 +380,8 @@ Process(cs, c, e, nm, first) ==
 -----------------------------------------------------------------------------
 (* Packing / unpacking one client's state                                   *)
 
-CS(c) == [g |-> cl[c], proc |-> proc[c], msgs |-> msgs[c], q |-> snapq[c], notif |-> <<>>, out |-> <<>>]
+CS(c) == [g |-> cl[c], proc |-> proc[c], msgs |-> msgs[c], q |-> snapq[c], notif |-> <<>>, out |-> <<>>,
+          hyd |-> hyd[c], sql |-> c \in Sql]
 
 \* hydration of the snapshot queue from storage (persistent backends, first touch after restart)
 Persistent(c) == c \in Sql
@@ -373,6 +395,7 @@ Install(c, cs) ==
     /\ proc' = [proc EXCEPT ![c] = cs.proc]
     /\ msgs' = [msgs EXCEPT ![c] = cs.msgs]
     /\ snapq' = [snapq EXCEPT ![c] = cs.q]
+    /\ hyd' = [hyd EXCEPT ![c] = cs.hyd]
     /\ Publish(cs.out)
 
 -----------------------------------------------------------------------------
@@ -389,7 +412,7 @@ InitState == [ ginfo |-> [g \in Groups |-> NoGInfo],
                wl    |-> <<>>,
                welc  |-> [c \in Clients |-> <<>>],
                pwelc |-> [c \in Clients |-> <<>>],
-               hist  |-> [mergedNoSnap |-> {}, lastRes |-> "", notifs |-> <<>>, late |-> {}, tried |-> {}, q |-> FALSE, aheadOfRefs |-> {}] ]
+               hist  |-> [mergedNoSnap |-> {}, lastRes |-> "", notifs |-> <<>>, late |-> {}, tried |-> {}, q |-> FALSE, aheadOfRefs |-> {}, lostTs |-> {}] ]
 
 Init ==
     /\ ginfo = InitState.ginfo
@@ -466,7 +489,7 @@ DoCommit(c, g, kind, arg, nm, wn) ==
                                   [g |-> g, to |-> CHOOSE u \in arg : wn[u] = w, chain |-> Append(cl[c][g].chain, nm.name),
                                    commit |-> nm.name, inviter |-> c]]
                     ELSE wl
-    /\ UNCHANGED <<ginfo, hyd, withdrawn, welc, pwelc, hist>>
+    /\ UNCHANGED <<ginfo, withdrawn, welc, pwelc, hist>>
 
 \* merge_pending_commit: no snapshot, no exporter secret, no dedup record.
 \* Without a pending commit it is a no-op that still re-syncs the record.
@@ -478,7 +501,7 @@ MergePending(c, g) ==
            cs3 == IF k # NoE /\ ev[k].eff.kind = "self_update" /\ ev[k].refs = {} THEN [cs2 EXCEPT !.g[g].rec.su = FALSE] ELSE cs2
        IN  /\ Install(c, cs3)
            /\ hist' = IF k = NoE THEN hist ELSE [hist EXCEPT !.mergedNoSnap = @ \cup {<<c, k>>}]
-    /\ UNCHANGED <<ginfo, hyd, withdrawn, wl, welc, pwelc>>
+    /\ UNCHANGED <<ginfo, withdrawn, wl, welc, pwelc>>
 
 \* clear_pending_commit is for a commit whose publication failed: the event is withdrawn
 ClearPending(c, g) ==
@@ -486,7 +509,7 @@ ClearPending(c, g) ==
     /\ \A x \in Clients : <<x, cl[c][g].pend>> \notin hist.tried
     /\ Install(c, [CS(c) EXCEPT !.g[g].pend = NoE])
     /\ withdrawn' = IF cl[c][g].pend = NoE THEN withdrawn ELSE withdrawn \cup {cl[c][g].pend}
-    /\ UNCHANGED <<ginfo, hyd, wl, welc, pwelc, hist>>
+    /\ UNCHANGED <<ginfo, wl, welc, pwelc, hist>>
 
 \* create_message
 CanSend(c, g) == /\ Created(g) /\ cl[c][g].mls = "ok"
@@ -507,7 +530,7 @@ SendMessage(c, g, nm, m) ==
                               !.msgs = (<<g, m.id>> :> rowm) @@ @]
            cs2 == SetProc(cs1, nm.name, "created", g, cur)
        IN  Install(c, UpdateLast(cs2, g, m.id, rowm))
-    /\ UNCHANGED <<ginfo, hyd, withdrawn, wl, welc, pwelc, hist>>
+    /\ UNCHANGED <<ginfo, withdrawn, wl, welc, pwelc, hist>>
 
 \* leave_group: a self-remove proposal (recorded with state ProcessedCommit, as the code does)
 CanLeave(c, g) == /\ Created(g) /\ cl[c][g].mls = "ok"
@@ -525,7 +548,7 @@ Leave(c, g, nm) ==
            cs1 == [cs0 EXCEPT !.g[g] = PutSecret(@, cur, gs.chain), !.out = <<E>>,
                               !.g[g].props = @ \cup {[a |-> c, k |-> "leave", t |-> c]}]   \* MLS queues the own proposal too
        IN  Install(c, SetProc(cs1, nm.name, "processed_commit", g, cur))
-    /\ UNCHANGED <<ginfo, hyd, withdrawn, wl, welc, pwelc, hist>>
+    /\ UNCHANGED <<ginfo, withdrawn, wl, welc, pwelc, hist>>
 
 -----------------------------------------------------------------------------
 (* Welcomes (welcomes.rs)                                                   *)
@@ -596,7 +619,15 @@ Deliver(c, e, nm) ==
                                    !.aheadOfRefs = IF ev[e].kind = "commit" /\ ~(ev[e].refs \subseteq cl[c][g0].props)
                                                       /\ ev[e].parent = cl[c][g0].chain
                                                    THEN @ \cup {<<c, e>>} ELSE @]
-    /\ UNCHANGED <<ginfo, hyd, withdrawn, wl, welc, pwelc>>
+    /\ UNCHANGED <<ginfo, withdrawn, wl, welc, pwelc>>
+
+\* drop the MDK instance and its storage handle, reopen the same database (clean shutdown)
+Restart(c) ==
+    /\ c \in Sql
+    /\ snapq' = [snapq EXCEPT ![c] = [g \in Groups |-> <<>>]]
+    /\ hyd' = [hyd EXCEPT ![c] = {}]
+    /\ hist' = [hist EXCEPT !.lostTs = @ \cup UNION {{<<c, snapq[c][g][i].commit>> : i \in DOMAIN snapq[c][g]} : g \in Groups}]
+    /\ UNCHANGED <<ginfo, ev, cl, proc, msgs, withdrawn, wl, welc, pwelc>>
 
 \* the driver declares that every event has been re-offered until nothing changed
 Quiesce ==
@@ -675,6 +706,15 @@ Excused_OwnInvalidCommit(c, g) ==
     /\ n < Len(ch)
     /\ ev[ch[n + 1]].author = c /\ ~ValidCommit(ch[n + 1])
 
+\* finding HydratedNoTimestamp: after a restart the snapshot queue is rebuilt without the applied commits'
+\* timestamps, so a better competing commit arriving after the restart is refused instead of rolled back to
+Excused_RestartLostTimestamp(c, g) ==
+    LET ch == cl[c][g].chain
+        n  == CommonPrefixLen(ch, Winner(g), 0) IN
+    /\ "HydratedNoTimestamp" \in Dev
+    /\ n < Len(ch)
+    /\ <<c, ch[n + 1]>> \in hist.lostTs
+
 C01_Plain == \A g \in Groups : Created(g) => \A c \in Remaining(g) : InScope(c, g) => ConvergedAt(c, g)
 C01_Ex(pr) == \A g \in Groups : Created(g) => \A c \in Remaining(g) :
                   InScope(c, g) => \/ ConvergedAt(c, g)
@@ -684,6 +724,8 @@ C01_Ex(pr) == \A g \in Groups : Created(g) => \A c \in Remaining(g) :
                                       /\ pr => PrintT(<<"KNOWN-FINDING", "C01", "CommitBeforeProposal", c, g>>)
                                    \/ /\ Excused_OwnInvalidCommit(c, g)
                                       /\ pr => PrintT(<<"KNOWN-FINDING", "C01", "OwnCommitNotValidated", c, g>>)
+                                   \/ /\ Excused_RestartLostTimestamp(c, g)
+                                      /\ pr => PrintT(<<"KNOWN-FINDING", "C11", "HydratedNoTimestamp", c, g>>)
                                    \/ /\ Excused_Evicted(c, g)
                                       /\ pr => PrintT(<<"KNOWN-FINDING", "C01", "EvictedNeverRecovers", c, g>>)
                                    \/ /\ Excused_RotationCommit(c, g)
